@@ -614,7 +614,8 @@ def _root_.HickoryVerif.Wire.RData.proved : RData → Bool
   | .a _ | .aaaa _ | .name _ | .mx _ _ | .soa _ _ _ _ _ _ _ | .txt _ | .srv _ _ _ _ | .hinfo _ _ | .null _
   | .unknown _ _
   | .ds _ _ _ _ | .dnskey _ _ _ _ | .tlsa _ _ _ _ | .sshfp _ _ _ | .openpgpkey _ | .cert _ _ _ _
-  | .nsec3param _ _ _ | .caa _ _ _ _ | .key _ _ _ _ | .naptr _ _ _ _ _ _ | .sig _ _ _ _ _ _ _ _ _ => true
+  | .nsec3param _ _ _ | .caa _ _ _ _ | .key _ _ _ _ | .naptr _ _ _ _ _ _ | .sig _ _ _ _ _ _ _ _ _
+  | .tsig _ _ _ _ _ _ _ => true
   | _ => false
 
 /-- wire form of the name-free "blob" variants (stage 3): fixed fields, then the rest as it is -/
@@ -665,6 +666,11 @@ def layRData : RData → Lay
       (laySeq (laySeg (u32b ottl)) (laySeq (laySeg (u32b exp)) (laySeq (laySeg (u32b inc))
         (laySeq (laySeg (u16b tag)) (laySeq (layName signer.labels) layEmpty))))))))
       (laySeq (laySeg sg) layEmpty)
+  | .tsig alg time fudge mac oid err other =>
+    laySeq (layName alg.labels) (laySeq (laySeg (u16b (time / 4294967296)))
+      (laySeq (laySeg (u32b (time % 4294967296))) (laySeq (laySeg (u16b fudge)) (laySeq (laySeg (u16b mac.length))
+        (laySeq (laySeg mac) (laySeq (laySeg (u16b oid)) (laySeq (laySeg (u16b err))
+          (laySeq (laySeg (u16b other.length)) (laySeq (laySeg other) layEmpty)))))))))
   | _ => fun _ _ _ _ => False
 
 /-- the names inside the covered RDATA variants are well-formed names -/
@@ -685,6 +691,8 @@ def _root_.HickoryVerif.Wire.RData.namesWF : RData → Prop
   | .key _ proto alg _ => proto < 256 ∧ alg < 256
   | .naptr _ _ _ _ _ n => n.WF
   | .sig _ alg labels _ _ _ _ signer _ => signer.WF ∧ alg < 256 ∧ labels < 256
+  -- TSIG: the `u16::try_from` / 48-bit conversions of `TSIG::emit` succeed
+  | .tsig alg time _ mac _ _ other => alg.WF ∧ time < 281474976710656 ∧ mac.length < 65536 ∧ other.length < 65536
   | _ => True
 
 theorem isLayout_rdata (d : RData) (hp : d.proved = true) : IsLayout (layRData d) := by
@@ -713,6 +721,11 @@ theorem isLayout_rdata (d : RData) (hp : d.proved = true) : IsLayout (layRData d
       (isLayout_seq (isLayout_seg _) (isLayout_seq (isLayout_seg _) (isLayout_seq (isLayout_seg _)
         (isLayout_seq (isLayout_seg _) (isLayout_seq (isLayout_name _) isLayout_empty))))))))
       (isLayout_seq (isLayout_seg _) isLayout_empty)
+  case tsig =>
+    exact isLayout_seq (isLayout_name _) (isLayout_seq (isLayout_seg _) (isLayout_seq (isLayout_seg _)
+      (isLayout_seq (isLayout_seg _) (isLayout_seq (isLayout_seg _) (isLayout_seq (isLayout_seg _)
+        (isLayout_seq (isLayout_seg _) (isLayout_seq (isLayout_seg _) (isLayout_seq (isLayout_seg _)
+          (isLayout_seq (isLayout_seg _) isLayout_empty)))))))))
   all_goals exact isLayout_seg _
 
 theorem emits_emitRData (t : Nat) (d : RData) (hp : d.proved = true) (hwf : d.namesWF) :
@@ -803,6 +816,18 @@ theorem emits_emitRData (t : Nat) (d : RData) (hp : d.proved = true) (hwf : d.na
       (isLayout_seq (isLayout_seg _) (isLayout_seq (isLayout_seg _) (isLayout_seq (isLayout_seg _)
         (isLayout_seq (isLayout_seg _) (isLayout_seq (isLayout_name _) isLayout_empty))))))))
       (isLayout_seg _) (emits_withRdataBehavior hin _) (emits_emitSlice sg)
+  case tsig alg time fudge mac oid err other =>
+    obtain ⟨halg, htime, hmac, hother⟩ := hwf
+    have c1 : ¬ time / 4294967296 > 65535 := by omega
+    have c2 : ¬ mac.length > 65535 := by omega
+    have c3 : ¬ other.length > 65535 := by omega
+    simp only [c1, c2, c3, ↓reduceIte]
+    refine emits_withRdataBehavior ?_ _
+    exact emits_seq (isLayout_name _) (emits_emitName alg halg) (emits_seq (isLayout_seg _) (emits_emitU16 _)
+      (emits_seq (isLayout_seg _) (emits_emitU32 _) (emits_seqAll7 (isLayout_seg _) (isLayout_seg _)
+        (isLayout_seg _) (isLayout_seg _) (isLayout_seg _) (isLayout_seg _) (isLayout_seg _)
+        (emits_emitU16 fudge) (emits_emitU16 mac.length) (emits_emitSlice mac) (emits_emitU16 oid)
+        (emits_emitU16 err) (emits_emitU16 other.length) (emits_emitSlice other))))
   case caa cr rs tag v =>
     have h1 := emits_emitU8 (rs % 128 + (if cr then 128 else 0))
     have e1 : (rs % 128 + (if cr then 128 else 0)) % 256 = rs + (if cr then 128 else 0) := by
@@ -979,6 +1004,7 @@ def _root_.HickoryVerif.Wire.RData.typeOK (t : Nat) : RData → Prop
       flags.length ≤ 255 ∧ services.length ≤ 255 ∧ regexp.length ≤ 255 ∧ flags.all isAlnum = true
   | .sig covered _ _ ottl exp inc tag _ _ => (t = 46 ∨ t = 24) ∧ covered < 65536 ∧ ottl < 4294967296 ∧
       exp < 4294967296 ∧ inc < 4294967296 ∧ tag < 65536
+  | .tsig _ _ fudge _ oid err _ => t = 250 ∧ fudge < 65536 ∧ oid < 65536 ∧ err < 65536
   | _ => False
 
 /-- the value with every embedded name made fully qualified (what `Name::read` returns) -/
@@ -989,6 +1015,8 @@ def _root_.HickoryVerif.Wire.RData.fq : RData → RData
   | .soa m r a b c d e => .soa { m with fqdn := true } { r with fqdn := true } a b c d e
   | .naptr o p f s r n => .naptr o p f s r { n with fqdn := true }
   | .sig c a l o e i t signer sg => .sig c a l o e i t { signer with fqdn := true } sg
+  -- `TsigAlgorithm::to_name()` gives the algorithm name back relative
+  | .tsig alg t f m o e x => .tsig { alg with fqdn := false } t f m o e x
   | d => d
 
 theorem drop_of_segAt_end {buf d : Bytes} {p : Nat} (h : SegAt buf p d) (he : p + d.length = buf.length) :
@@ -1416,6 +1444,42 @@ theorem reads_rdataBody {H : Nat × Nat → Prop} {opq : Nat → Rd Bytes} {t : 
     refine Reads.bind (reads_name_of_lay l8 hwf.1) ?_
     refine Reads.bind (reads_toEnd_seg gsg hq.symm) ?_
     exact Reads.pure _ _ _
+  case tsig alg time fudge mac oid err other =>
+    obtain ⟨rfl, hf, ho, he⟩ := hty
+    obtain ⟨halg, htime, hmac, hother⟩ := hwf
+    obtain ⟨m1, l1, m2, l2, m3, l3, m4, l4, m5, l5, m6, l6, m7, l7, m8, l8, m9, l9, m10, l10, l11⟩ := hl
+    obtain ⟨rfl, _⟩ := l11
+    have b1 := (isLayout_name _).bounds l1
+    have e2 := l2.2; have e3 := l3.2; have e4 := l4.2; have e5 := l5.2
+    have e7 := l7.2; have e8 := l8.2; have e9 := l9.2
+    obtain ⟨g6, e6⟩ := l6
+    obtain ⟨g10, e10⟩ := l10
+    simp only [u16b, u32b, List.length_cons, List.length_nil] at e2 e3 e4 e5 e7 e8 e9
+    have hbody : readRDataBody opq 250 = readTsig := rfl
+    rw [hbody]
+    unfold readTsig
+    refine Reads.bind (Reads.remaining buf p) ?_
+    refine Reads.bind (Reads.index buf p) ?_
+    refine Reads.bind (reads_name_of_lay l1 halg) ?_
+    refine Reads.bind (reads_u16_of_seg l2 (by omega)) ?_
+    refine Reads.bind (reads_u32_of_seg l3 (by omega)) ?_
+    refine Reads.bind (reads_u16_of_seg l4 hf) ?_
+    refine Reads.bind (reads_u16_of_seg l5 hmac) ?_
+    refine Reads.bind (Reads.index buf m5) ?_
+    rw [if_neg (fun hn => hn (by omega))]
+    rw [e6] at l7
+    refine Reads.bind (Reads.readSlice g6) ?_
+    refine Reads.bind (reads_u16_of_seg l7 ho) ?_
+    refine Reads.bind (reads_u16_of_seg l8 he) ?_
+    refine Reads.bind (reads_u16_of_seg l9 hother) ?_
+    refine Reads.bind (Reads.index buf m9) ?_
+    rw [if_neg (fun hn => hn (by omega))]
+    have := Reads.readSlice g10
+    rw [← e10] at this
+    refine Reads.bind this ?_
+    refine Reads.pure' _ _ ?_
+    have ht : time / 4294967296 * 4294967296 + time % 4294967296 = time := by omega
+    simp only [RData.fq, ht]
   case caa cr rs tag v =>
     obtain ⟨rfl, ht1, ht15, hal⟩ := hty
     obtain ⟨hseg, hq⟩ := hl
@@ -1508,6 +1572,15 @@ theorem layRData_pos {H : Nat × Nat → Prop} {b : Bytes} {p q : Nat} (d : RDat
     obtain ⟨_, rfl⟩ := hl
     have : dd.length ≠ 0 := fun h => hne (List.eq_nil_of_length_eq_zero h)
     simp only [blobWire]; omega
+  case tsig alg time fudge mac oid err other =>
+    obtain ⟨m1, l1, rest⟩ := hl
+    obtain ⟨F, h1, _⟩ := l1
+    have h2 := h1.pos_lt_end
+    have := (isLayout_seq (isLayout_seg _) (isLayout_seq (isLayout_seg _)
+      (isLayout_seq (isLayout_seg _) (isLayout_seq (isLayout_seg _) (isLayout_seq (isLayout_seg _)
+        (isLayout_seq (isLayout_seg _) (isLayout_seq (isLayout_seg _) (isLayout_seq (isLayout_seg _)
+          (isLayout_seq (isLayout_seg _) isLayout_empty))))))))).bounds rest
+    omega
   case naptr order pref flags services regexp n =>
     obtain ⟨m1, l1, rest⟩ := hl
     obtain ⟨_, rfl⟩ := l1
@@ -1712,10 +1785,13 @@ theorem reads_records {H : Nat × Nat → Prop} {opq : Nat → Rd Bytes} {buf : 
       | false => simpa using ih'
       | true =>
         simp only [Bool.not_true, Bool.false_eq_true, ↓reduceIte]
-        have hpv : r.rdata.proved = true := by
+        have hpv : r.rdata.proved = true ∧ r.rdata.typeOK r.rtype := by
           rcases hr.data with h1 | h1
           · exfalso; rw [h1] at hu; simp [RData.isUpdate] at hu
-          · exact h1.1
-        cases hdd : r.rdata <;> rw [hdd] at hpv <;> simp [RData.proved] at hpv <;>
-          simp only [Record.fq, hdd, RData.fq] <;> (simp only [Record.fq, hdd, RData.fq] at ih'; exact ih')
+          · exact ⟨h1.1, h1.2.1⟩
+        obtain ⟨hpv, hty⟩ := hpv
+        cases hdd : r.rdata <;> rw [hdd] at hpv hty <;> simp [RData.proved] at hpv <;>
+          first
+          | (exfalso; exact hs2 hty.1)
+          | (simp only [Record.fq, hdd, RData.fq]; simp only [Record.fq, hdd, RData.fq] at ih'; exact ih')
 end HickoryVerif.C02
